@@ -449,8 +449,22 @@ fn read_sessions(path: &str) -> Vec<Sess> {
     out
 }
 
-fn shard_path(out: &str, mode: &str, i: usize) -> String {
-    format!("{out}/untrusted-{mode}-{i:02}.ndjson")
+/// trace files: `untrusted-<mode>-<worker>-<chunk>.ndjson`; a worker starts a new chunk every CHUNK events so
+/// that one TLC process never has to load a huge trace (every chunk starts with a base session)
+const CHUNK: usize = 6000;
+
+fn shard_path(out: &str, mode: &str, i: usize, chunk: usize) -> String {
+    format!("{out}/untrusted-{mode}-{i:02}-{chunk:03}.ndjson")
+}
+
+/// (index, number of lines) of the last chunk worker `i` has written
+fn last_chunk(out: &str, mode: &str, i: usize) -> (usize, usize) {
+    let mut c = 0;
+    while std::path::Path::new(&shard_path(out, mode, i, c + 1)).exists() {
+        c += 1;
+    }
+    let n = std::fs::read(shard_path(out, mode, i, c)).map(|b| b.iter().filter(|x| **x == b'\n').count()).unwrap_or(0);
+    (c, n)
 }
 
 fn worker(args: &Args) {
@@ -464,7 +478,9 @@ fn worker(args: &Args) {
     alloc::MARK_FD.store(prog.as_raw_fd(), std::sync::atomic::Ordering::Relaxed);
     alloc::cap_address_space(6 << 30);
     alloc::start_watchdog(8, 90);
-    let mut shard = std::fs::OpenOptions::new().create(true).append(true).open(shard_path(&args.out, &mode, w)).unwrap();
+    let (mut chunk, mut written) = last_chunk(&args.out, &mode, w);
+    let open = |chunk: usize| std::fs::OpenOptions::new().create(true).append(true).open(shard_path(&args.out, &mode, w, chunk)).unwrap();
+    let mut shard = open(chunk);
     // sessions are grouped by (file, api): at the start of its share of a group the worker runs the
     // uncorrupted session itself and records it (src = "base"); batches of the following sessions that are
     // identical to a base batch are recorded as references to it
@@ -473,6 +489,12 @@ fn worker(args: &Args) {
     for (k, s) in sessions.iter().enumerate() {
         if k % WORKERS != w || k < from {
             continue;
+        }
+        if written >= CHUNK {
+            chunk += 1;
+            written = 0;
+            shard = open(chunk);
+            group = None;
         }
         if let Sess::File { file, api, .. } = s {
             if group != Some((*file, *api)) {
@@ -484,6 +506,7 @@ fn worker(args: &Args) {
                     let mut line = serde_json::to_vec(&ev).unwrap();
                     line.push(b'\n');
                     shard.write_all(&line).unwrap();
+                    written += 1;
                 }
             }
         }
@@ -492,6 +515,7 @@ fn worker(args: &Args) {
             let mut line = serde_json::to_vec(&ev).unwrap();
             line.push(b'\n');
             shard.write_all(&line).unwrap();
+            written += 1;
         }
         alloc::mark(b'D', k, 0);
     }
@@ -505,7 +529,11 @@ fn supervise(args: &Args, mode: &str) {
     std::fs::create_dir_all(&args.out).unwrap();
     write_sessions(&format!("{}/sessions-{mode}.txt", args.out), &sessions);
     for w in 0..WORKERS {
-        let _ = std::fs::remove_file(shard_path(&args.out, mode, w));
+        for c in 0..10_000 {
+            if std::fs::remove_file(shard_path(&args.out, mode, w, c)).is_err() {
+                break;
+            }
+        }
         let _ = std::fs::remove_file(format!("{}/prog-{mode}-{w}.txt", args.out));
     }
     let spawn = |w: usize, from: usize| {
@@ -571,7 +599,8 @@ fn supervise(args: &Args, mode: &str) {
             _ => ("crash", format!("signal {}", st.signal().unwrap_or(0))),
         };
         if let Some(ev) = dead_event(&c, k, &sessions[k], outcome, &wher) {
-            let mut shard = std::fs::OpenOptions::new().create(true).append(true).open(shard_path(&args.out, mode, w)).unwrap();
+            let (chunk, _) = last_chunk(&args.out, mode, w);
+            let mut shard = std::fs::OpenOptions::new().create(true).append(true).open(shard_path(&args.out, mode, w, chunk)).unwrap();
             let mut line = serde_json::to_vec(&ev).unwrap();
             line.push(b'\n');
             shard.write_all(&line).unwrap();
@@ -590,11 +619,13 @@ fn supervise(args: &Args, mode: &str) {
     let mut counts: std::collections::BTreeMap<String, usize> = Default::default();
     let mut events = 0;
     for w in 0..WORKERS {
-        if let Ok(t) = std::fs::read_to_string(shard_path(&args.out, mode, w)) {
+        for c in 0..=last_chunk(&args.out, mode, w).0 {
+            let Ok(t) = std::fs::read_to_string(shard_path(&args.out, mode, w, c)) else { continue };
             for l in t.lines() {
                 events += 1;
-                if let Ok(v) = serde_json::from_str::<Value>(l) {
-                    *counts.entry(v["outcome"].as_str().unwrap_or("?").to_string()).or_default() += 1;
+                if let Some(i) = l.find("\"outcome\":\"") {
+                    let r = &l[i + 11..];
+                    *counts.entry(r[..r.find('"').unwrap_or(0)].to_string()).or_default() += 1;
                 }
             }
         }
